@@ -85,7 +85,9 @@ def _create_merge_candidates(merge_expr: exp.Merge) -> exp.Expression:
             insert_values = then.expression.expressions
             values.update([str(c) for c in insert_values if isinstance(c, exp.Column)])
             predicate = f"AND {condition}" if condition else ""
-            case_when_clauses.append(f"WHEN {target_tbl}.rowid is NULL {predicate} THEN {w_idx}")
+            # refer to the target by its alias if it has one
+            target_ref = target_tbl.args.get("alias") or target_tbl
+            case_when_clauses.append(f"WHEN {target_ref}.rowid is NULL {predicate} THEN {w_idx}")
 
     sql = f"""
     CREATE OR REPLACE TEMPORARY TABLE merge_candidates AS
@@ -159,8 +161,10 @@ def _mutations(merge_expr: exp.Merge) -> list[exp.Expression]:
             cols = [str(c) for c in then.this.expressions] if then.this else []
             columns = f"({', '.join(cols)})" if cols else ""
             values = ", ".join(map(str, then.expression.expressions))
+            insert_tbl = target_tbl.copy()
+            insert_tbl.set("alias", None)  # INSERT INTO takes no alias
             insert_sql = f"""
-                INSERT INTO {target_tbl} {columns}
+                INSERT INTO {insert_tbl} {columns}
                 SELECT {values}
                 FROM merge_candidates AS {source_tbl}
                 WHERE {source_tbl}.merge_op = {w_idx}
